@@ -27,4 +27,7 @@ theorem gen_writes_use_joined : C17Facts.unzipWritesJoined = true ∧ C17Facts.u
 theorem gen_modes_kept : C17Facts.zipDirKeepsMode = true ∧ C17Facts.zipFileKeepsMode = true ∧
     C17Facts.unzipAppliesMode = true := by decide
 
+/-- `writeFirstFileAs` hands the `file` parameter itself to `createFile` -/
+theorem gen_firstfile_dest_only : C17Facts.firstFileWritesDestOnly = true := by decide
+
 end PubModel.C17
